@@ -6,7 +6,7 @@ NAMESPACE = "Rbp.Props.C17"
 REQUIRED = ["open_invariant", "disjoint_constant", "open_invariant_run"]
 LEAN_FILES = ["Rbp/Model/Driver.lean", "Rbp/Model/Run.lean", "Rbp/Proofs/OpenFiles.lean"]
 RULE = ("black-box runs with -v: the `Opening <blk file>` / `Closing <blk file>` debug lines of the real binary form its open/close trace, compared event for event with the model's trace; layouts with 1..40 blk files (quick) whose height spans are "
-        "disjoint, overlapping or interleaved, ranges starting/stopping in the middle of a file; on the real trace the invariant `open => a block of that file is still to come` and, for disjoint spans, `at most one file open` are checked directly; "
+        "disjoint, overlapping or interleaved, ranges starting/stopping in the middle of a file, stale blocks with data stored in the active files above their active heights; on the real trace the invariant `open => a block of that file is still to come` and, for disjoint spans, `at most one file open` are checked directly; "
         "thorough adds 300..1200 files with disjoint spans under `ulimit -n` set a few above the single-file calibration. non-trivial = more than one blk file; distinct = distinct scenarios")
 ASSUMPTIONS = ["dropping the BufReader<File> releases the descriptor (runtime behaviour, not modelled; covered by the ulimit runs of the thorough tier)"]
 
@@ -41,6 +41,23 @@ def spans_layout(r, coin, blocks, mode, nfiles):
         off = s.place_block(name, pos[f], raw)
         pos[f] = off + len(raw)
         s.kvs.append(K.record(b.hash(), h, K.ACTIVE, len(b.txs), numbers[f], off, b.header(), undo=1))
+    # stale (never connected) blocks with data stored in the active files, at heights above everything active in that file:
+    # they are not part of the chain, so they must not keep the file open
+    if r.random() < 0.5:
+        for f in r.sample(range(nfiles), min(nfiles, r.randrange(1, 4))):
+            hs = [h for h in range(n) if assign[h] == f]
+            if not hs:
+                continue
+            h = min(n - 1, max(hs) + r.randrange(1, 4))
+            if h < 1:
+                continue
+            cb = K.Tx([(b"\0" * 32, 0xffffffff, bytes([3, h & 255, 55]), 0xffffffff)], [(1, GC.spk(r, coin, "p2pkh"))])
+            sb = K.Block([cb], prev=blocks[h - 1].hash(), time=r.randrange(1, 1 << 31), nonce=r.randrange(1 << 32))
+            name = K.blkname(numbers[f])
+            raw = sb.enc()
+            off = s.place_block(name, pos[f], raw)
+            pos[f] = off + len(raw)
+            s.kvs.append(K.record(sb.hash(), h, K.VALID_TRANSACTIONS | K.HAVE_DATA, 1, numbers[f], off, sb.header()))
     s.verbose = 1
     s.meta = {"mode": mode, "nfiles": nfiles, "n": n}
     s._assign = [numbers[f] for f in assign]
